@@ -1,5 +1,7 @@
 #include <AIToolbox/Utils/Probability.hpp>
 
+#include <cmath>
+
 namespace AIToolbox {
     bool isProbability(const Matrix2D & in) {
         for (size_t row = 0; row < static_cast<size_t>(in.rows()); ++row)
@@ -57,8 +59,13 @@ namespace AIToolbox {
             // Any solution here would do, but this seems nice.
             retval.fill(1.0 / v.size());
         } else if (sum > 1.0) {
-            // We normalize the vector.
-            retval.array() *= v.array() / sum;
+            // We normalize the vector. If the sum overflowed (finite entries
+            // close to the largest double) we scale by the largest entry
+            // first, so that the result is the same as in exact arithmetic.
+            if (std::isinf(sum)) {
+                retval.array() *= v.array() / v.maxCoeff();
+                retval /= retval.sum();
+            } else retval.array() *= v.array() / sum;
         } else {
             // We remove equally from all non-zero elements.
             const auto diff = (1.0 - sum) / count;
